@@ -204,13 +204,17 @@ def regen_lexrules():
     global FALLBACK_USED
     rc, out = sh([sys.executable, os.path.join(VERIF, 'tools', 'lex2coq.py'),
                   os.path.join(REPO, 'src', 'lexer.l'), os.path.join(REPO, 'src', 'confuse.h'), COQ])
-    if rc != 0 and FALLBACK_OK:
+    if rc != 0:
+        # the executable model always gets a rule table (the frozen last-good one), so that oracles which run the
+        # model's scanner (C01's reference meaning) do not turn a translator failure into bogus failing inputs
         gold = os.path.join(VERIF, 'tools', 'selftest', 'LexRules.v')
         dst = os.path.join(COQ, 'LexRules.v')
         if not os.path.exists(dst) or open(dst).read() != open(gold).read():
             shutil.copy(gold, dst)
         FALLBACK_USED = True
-        return 0, out + '\nlex2coq failed; this property does not depend on the rule table: frozen tools/selftest/LexRules.v used\n'
+        if FALLBACK_OK:
+            return 0, out + '\nlex2coq failed; this property does not depend on the rule table: frozen tools/selftest/LexRules.v used\n'
+        return rc, out + '\nlex2coq failed: the tie between lexer.l and the rule table is broken (the model runs on the frozen table)\n'
     return rc, out
 
 
@@ -224,9 +228,7 @@ def coq_make(targets, timeout=3000):
 def build_model():
     """regenerate the rule table, compile the model, extract, build the OCaml driver; returns (exe, log)"""
     with Lock('model'):
-        rc, log = regen_lexrules()
-        if rc != 0:
-            raise BuildError('translator failed:\n' + log)
+        rc, log = regen_lexrules()       # on failure the frozen rule table is in place: the model still builds
         rc, out = coq_make(['Extract.vo'])
         log += out
         if rc != 0:
